@@ -19,10 +19,10 @@ type lstate struct {
 	rel     uint64
 	cells   uint64 // 2 bits per tracked boolean (0 unknown, 1 false, 2 true)
 	defers  uint32
-	pend    int32 // id of the call whose error nil-ness is pending, -1 none
-	pendNil int8  // 1 nil, 2 non-nil
+	pend    int32  // id of the call whose error nil-ness is pending, -1 none
+	pendNil int8   // 1 nil, 2 non-nil
 	pendB   uint16 // pending facts about the call's boolean results (2 bits per result index: 1 false, 2 true)
-	dead    bool  // blocked forever (self-acquisition)
+	dead    bool   // blocked forever (self-acquisition)
 }
 
 // funcAn is the per-(function, context) interpretation.
